@@ -120,6 +120,13 @@ def grep_gate(cdir):
 def build_model_driver(cdir):
     """extract (Extract.v) and build ocaml/model_driver in a temp dir; returns path"""
     d = mktmp("vml")
+    mods = []
+    for line in open(os.path.join(cdir, "Extract.v")):
+        m = re.match(r'From LB Require Import (.*)\.', line.strip())
+        if m: mods += m.group(1).split()
+    ok, log = coq_make(cdir, [x + ".vo" for x in mods])
+    if not ok:
+        raise ProofBroken("models", log[-3000:])
     r = run(["timeout", "300", "coqc", "-Q", cdir, "LB", os.path.join(cdir, "Extract.v")], cwd=d, timeout=330)
     if r.returncode != 0:
         raise ProofBroken("Extract.v", r.stdout + r.stderr)
@@ -218,14 +225,15 @@ class Check:
         self.assumptions = []
         self.known, self.fixed = load_known()
         self.known = [k for k in self.known if k["property"] == pid]
-        os.makedirs(os.path.join(VERIF, "replays"), exist_ok=True)
-        os.makedirs(os.path.join(VERIF, "evidence"), exist_ok=True)
+        self.outdir = VERIF if os.path.realpath(REPO) == "/repo" else os.environ.get("VERIF_OUT", "/tmp/verif-out-" + hashlib.sha256(REPO.encode()).hexdigest()[:8])
+        os.makedirs(os.path.join(self.outdir, "replays"), exist_ok=True)
+        os.makedirs(os.path.join(self.outdir, "evidence"), exist_ok=True)
 
     def oblige(self, name, ok, detail=""):
         self.obligations.append((name, bool(ok), detail))
 
     def replay_file(self, tag, content):
-        p = os.path.join(VERIF, "replays", "%s-%s-%d.json" % (self.pid, re.sub(r'[^A-Za-z0-9_.-]', '_', tag)[:60], self.seed))
+        p = os.path.join(self.outdir, "replays", "%s-%s-%d.json" % (self.pid, re.sub(r'[^A-Za-z0-9_.-]', '_', tag)[:60], self.seed))
         with open(p, "w") as f:
             json.dump(content, f, indent=1)
         return p
@@ -252,7 +260,7 @@ class Check:
               "coverage": cov, "assumptions": self.assumptions, "wall_s": round(time.time() - self.t0, 2),
               "violations": len(self.violations),
               "known_findings_hit": [k["key"] for k in self.known_hits]}
-        with open(os.path.join(VERIF, "evidence", "%s.json" % self.pid), "w") as f:
+        with open(os.path.join(self.outdir, "evidence", "%s.json" % self.pid), "w") as f:
             json.dump(ev, f, indent=1)
         for k in self.known_hits:
             print("KNOWN-FINDING: property=%s %s (%s)" % (self.pid, k["what"], k["key"]))
